@@ -53,6 +53,17 @@ def load_known():
         return json.load(fh).get("findings", [])
 
 
+def known_bounded(pid, key):
+    """the 'known' (not fixed) entry of known_findings.json for a bounded-stand-in case, or None.
+    An entry matches when its obligation is 'bounded:<key>' (a trailing * matches any suffix)."""
+    for k in load_known():
+        if k.get("property") == pid and k.get("status") == "known":
+            ob = k.get("obligation", "")
+            if ob == "bounded:" + key or (ob.endswith("*") and ("bounded:" + key).startswith(ob[:-1])):
+                return k
+    return None
+
+
 _MODS = None
 _TIER = "quick"
 _SEED = 0
